@@ -1,5 +1,6 @@
 import BstreamVerif.Lemmas.StepCheckSound
 import BstreamVerif.Props.C02
+import BstreamVerif.Props.C01
 /-!
 # C18 — the fork buffer is bounded by the window above the LIB; its lookups match the stream
 
@@ -59,5 +60,97 @@ theorem head_is_last_new (cfg : Config) (hnew : cfg.matches .new = true) (head :
     headInfo (ch.foldl (newStep cfg head) a).st =
       (((ch.filter (fun e => !isSent a.st.db e.blk.id)).getLast?).map (·.blk)).or a.st.lastSent :=
   (foldl_newStep_char cfg hnew head ch a hf hn hnd hpres).last
+
+/-! ## every block received at or above the LIB is returned by hash — along every history -/
+
+/-- the buffer returns, by hash, every block of `G` at or above its LIB -/
+def Keeps (G : List Blk) (db : DB) : Prop :=
+  ∀ g ∈ G, db.libRef.num ≤ g.num → ∃ e, db.find g.id = some e ∧ e.blk = g
+
+theorem keeps_step (cfg : Config) (hnew : cfg.matches .new = true) (hundo : cfg.matches .undo = true)
+    (hirr : cfg.matches .irreversible = true) (U : Id → Option Blk) (hU : UOK U) (F : List Id)
+    (s : FState) (P : List Id) (b : Blk) (hI : Inv s P) (hJ : Inv2 U F s.db) (hbU : U b.id = some b)
+    (hL : LibDeclOK s.db b) (G : List Blk) (hG : ∀ g ∈ G, U g.id = some g) (hK : Keeps G s.db) :
+    Keeps (G ++ [b]) (processBlock cfg s b none).1.db := by
+  obtain ⟨_, _, _, _, _, hshape⟩ := processBlock_step cfg hnew hundo hirr s P b hI
+    (sentClosed_of_inv2 U F s.db hI.wf hI.heights hJ) (hU.wf b.id b hbU) (hb_of_inv2 U hU F s.db hJ b hbU) hL
+  have hwf := hU.wf b.id b hbU
+  rcases hshape with ⟨hsame, hwhy⟩ | ⟨hf, db2, hsb, hcase⟩
+  · -- nothing changed: the block is invalid, below the LIB, or already stored
+    rw [hsame]
+    intro g hg hn
+    simp only [List.mem_append, List.mem_singleton] at hg
+    rcases hg with hg | rfl
+    · exact hK g hg hn
+    · rcases hwhy with h | h | h
+      · exact absurd h hwf.2.2
+      · omega
+      · obtain ⟨_, _, hlink⟩ := (addLink_exists_iff s.db g).mp h
+        cases hfind : s.db.find g.id with
+        | none => simp [DB.link, hfind] at hlink
+        | some e =>
+          refine ⟨e, rfl, ?_⟩
+          have h1 := hJ.inU e (find_mem _ _ e hfind)
+          rw [find_id _ _ e hfind, hbU] at h1
+          injection h1 with h1
+          exact h1.symm
+  · -- the block was linked
+    have hKa : Keeps (G ++ [b]) (appendBlk s.db b) := by
+      intro g hg hn
+      have hgU : U g.id = some g := by
+        simp only [List.mem_append, List.mem_singleton] at hg
+        rcases hg with hg | rfl
+        · exact hG g hg
+        · exact hbU
+      by_cases hid : g.id = b.id
+      · have : g = b := by rw [hid, hbU] at hgU; injection hgU with h; exact h.symm
+        subst this
+        exact ⟨⟨g, false⟩, find_append_self s.db g hf, rfl⟩
+      · simp only [List.mem_append, List.mem_singleton] at hg
+        rcases hg with hg | rfl
+        · obtain ⟨e, he, heb⟩ := hK g hg hn
+          exact ⟨e, by unfold appendBlk; rw [find_append_other s.db b _ hid]; exact he, heb⟩
+        · exact absurd rfl hid
+    have hK2 : Keeps (G ++ [b]) db2 := by
+      intro g hg hn
+      rw [hsb.1] at hn
+      obtain ⟨e, he, heb⟩ := hKa g hg hn
+      have := hsb.find_blk g.id
+      rw [he] at this
+      cases hf2 : db2.find g.id with
+      | none => rw [hf2] at this; simp at this
+      | some e2 =>
+        rw [hf2] at this
+        simp only [Option.map_some, Option.some.injEq] at this
+        exact ⟨e2, rfl, by rw [this]; exact heb⟩
+    rcases hcase with h | ⟨R, er, hdb, _, _, hup⟩
+    · rw [h]; exact hK2
+    · rw [hdb]
+      intro g hg hn
+      have hlib : ((db2.moveLIB R).purgeBeforeLIB cfg.kept).libRef = R := rfl
+      rw [hlib] at hn
+      obtain ⟨e, he, heb⟩ := hK2 g hg (by omega)
+      exact ⟨e, find_movePurge db2 R cfg.kept g.id e he (by rw [heb]; omega), heb⟩
+
+/-- **every history of blocks of one consistent block tree**: whatever was fed, in whatever order, every fed block at
+    or above the final LIB — on any fork — is returned by hash (and hence by number: `lookup_by_number`). -/
+theorem history_lookup_complete (cfg : Config) (hnew : cfg.matches .new = true) (hundo : cfg.matches .undo = true)
+    (hirr : cfg.matches .irreversible = true) (U : Id → Option Blk) (hU : UOK U) (h : List Blk) (F : List Id)
+    (s : FState) (P : List Id) (hI : Inv s P) (hJ : Inv2 U F s.db) (hin : ∀ b ∈ h, U b.id = some b)
+    (hL : Props.C01.LibHistOK cfg s h) (G : List Blk) (hG : ∀ g ∈ G, U g.id = some g) (hK : Keeps G s.db) :
+    Keeps (G ++ h) (runHistory cfg s h).1.db := by
+  induction h generalizing s P F G with
+  | nil => simpa [runHistory] using hK
+  | cons b r ih =>
+    obtain ⟨P1, F1, _, hI1, hJ1⟩ :=
+      Props.C01.step_discipline_consistent cfg hnew hundo hirr U hU F s P b hI hJ (hin b (by simp)) hL.1
+    have hK1 := keeps_step cfg hnew hundo hirr U hU F s P b hI hJ (hin b (by simp)) hL.1 G hG hK
+    have := ih F1 _ P1 hI1 hJ1 (fun x hx => hin x (by simp [hx])) hL.2 (G ++ [b])
+      (by intro g hg; simp only [List.mem_append, List.mem_singleton] at hg
+          rcases hg with hg | rfl
+          · exact hG g hg
+          · exact hin g (by simp)) hK1
+    rw [Props.C01.runHistory_cons]
+    simpa [List.append_assoc] using this
 
 end BstreamVerif.Props.C18
